@@ -44,7 +44,7 @@ def floors(tier):
     return {"distinct_nontrivial": 100, "states": 300, "count:frames_with_current": 300, "count:accepted": 50}
 
 
-TERMS = {"G1": ["source", "drain"], "G2": ["source", "drain"], "G3": ["left", "right", "stem"], "G4": ["w", "e", "n", "s"],
+TERMS = {"G1d": ["source", "drain"], "G1": ["source", "drain"], "G2": ["source", "drain"], "G3": ["left", "right", "stem"], "G4": ["w", "e", "n", "s"],
          "G6": ["a", "b"], "G7": ["source", "drain"]}
 
 CURRENTS = {
@@ -69,6 +69,10 @@ def cases(tier, seed):
         for ci, field, adaptive, k in itertools.product(range(len(cur)), ("zero", "static", "ramp"), (False, True), ks):
             out.append(dict(fam="run", dev=d, dens=dens, cur=cur[ci], field=field, adaptive=adaptive, k=k, screening=False,
                             units="um", seeded=False))
+    # terminals that reach deep into the film (they contain interior sites and the centres of interior edges)
+    for c, field, adaptive in itertools.product(CURRENTS[2][:2], ("static", "ramp"), (False, True)):
+        for dens in ("coarse",) if quick else ("coarse", "fine"):
+            out.append(dict(fam="run", dev="G1d", dens=dens, cur=c, field=field, adaptive=adaptive, k=2, screening=False, units="um", seeded=False))
     # screening
     for d, c in ([("G1", [1, -1]), ("G3", [0.1, 0.2, -0.3])] if quick else
                  [(d, c) for d in ("G1", "G3", "G4") for c in CURRENTS[len(TERMS[d])][:4]]):
